@@ -4,5 +4,5 @@ CONSTANTS
   PartnerCells = {1, 2}
   PartnerNodes = {0, 1, 2, 3, 4}
   PartnerTris = {{0, 1, 3}, {1, 2, 3}, {2, 0, 3}, {1, 0, 4}, {2, 1, 4}, {0, 2, 4}}
-INVARIANTS P_Decision P_Local P_IndexInRange
+INVARIANTS D_Decision D_Local P_IndexInRange
 CHECK_DEADLOCK FALSE
